@@ -47,8 +47,8 @@ Candidates == MR({"ver", "lock"}, {0}, {0, 1}) \cup MR({"oph", "opi"}, 1..5, {0,
               \cup MR({"outs_insert"}, 1..5, {3})
               \cup MR({"ins_swap", "outs_swap", "unl_swap"}, 1..4, 2..5)
               \cup MR({"revert"}, {0}, {0})
-EnabledMuts == {x \in Candidates : TV!Enabled(x)}
-CandidatesCover == EnabledMuts = TV!AllMuts
+EnabledMuts == {x \in Candidates : XTV!Enabled(x)}
+CandidatesCover == EnabledMuts = XTV!AllMuts
 MMuts == CASE MutSet = "all" -> EnabledMuts
            [] MutSet = "fields" -> {x \in EnabledMuts : x.m \in FieldMutNames \cup {"unl_swap"}}
            [] OTHER -> {x \in EnabledMuts : x.m \in LightMutNames}
@@ -66,7 +66,9 @@ MInit == /\ case \in Cases /\ ShapeOK(case.coin, case.shape)
 MSign == \E p \in MPasses : XSign(p) /\ signed' # signed
 MEdit == MayEdit /\ \/ \E x \in MMuts : XMutate(x)
                     \/ \E t \in MRetags : XRetag(t[1], t[2], t[3])
-MNext == (MSign \/ MEdit) /\ UNCHANGED <<case, hist>>
+MStepSign == MSign /\ UNCHANGED <<case, hist>>
+MStepEdit == MEdit /\ UNCHANGED <<case, hist>>
+MNext == MStepSign \/ MStepEdit
 MSpec == MInit /\ [][MNext]_mvars
 
 ----------------------------------------------------------------------------
@@ -75,7 +77,7 @@ PassRec(p) == [t |-> "sign", K |-> p.K, I |-> p.I, ht |-> p.ht, ic |-> p.ic]
 MutRec(x) == [t |-> "mut", m |-> x.m, a |-> x.a, b |-> x.b]
 RetagRec(t) == [t |-> "retag", a |-> t[1], key |-> t[2], b |-> t[3]]
 Emit == PrintT(ToJson([k |-> "x", coin |-> coin, shape |-> shape, nout |-> case.nout, hist |-> hist',
-                       att |-> AttributionAll', unl |-> [pos \in 1..Len(ins') |-> ins'[pos].unl],
+                       att |-> AttributionAll', may |-> AttributionMayAll', unl |-> [pos \in 1..Len(ins') |-> ins'[pos].unl],
                        signed |-> signed', sigbytes |-> SigBytes]))
 RSign == \E p \in MPasses : /\ XSign(p) /\ signed' # signed
                             /\ hist' = Append(hist, PassRec(p)) /\ UNCHANGED case /\ Emit
@@ -92,6 +94,7 @@ ReachPartialLoss == \E i \in Ins : Attribution(i) # {} /\ Attribution(i) # signe
 NeverPartialLoss == ~(Len(ins) = Len(shape) /\ ReachPartialLoss)
 \* some state in which a transplanted or retagged signature still verifies (the SIGHASH_SINGLE corner)
 NeverSurvivesTransplant == ~\E pos \in Positions : ins[pos].unl # 0 /\ ins[pos].id # ins[pos].unl /\ Attribution(pos) # {}
+NeverOpen == \A pos \in Positions : Attribution(pos) = AttributionMay(pos)
 NeverSurvivesRetag == ~\E pos \in Positions : \E p \in Attribution(pos) : \E t \in retag : t[1] = ins[pos].unl /\ t[2] = p[1]
 
 ----------------------------------------------------------------------------
@@ -116,13 +119,14 @@ CasesFor(coins, ss, ns, hs) == {x \in {CaseOf(c, s, n, h) : c \in coins, s \in s
 CasesDev == CasesFor({"BTC"}, {1}, {2}, {1})
 CasesModel == CasesFor({"BTC"}, {1, 2, 4}, {1, 2}, {1, 5}) \cup CasesFor({"BCH"}, {2, 6}, {1}, {2})
               \cup CasesFor({"BTC"}, {9}, {1}, {2})
-CasesModelT == CasesFor({"BTC"}, 1..9, {1, 2}, {1, 5}) \cup CasesFor({"LTC"}, {4, 5}, {2}, {3}) \cup CasesFor({"BCH", "BTG"}, {1, 2, 6, 7}, {1}, {2, 4})
+CasesModelT == CasesFor({"BTC"}, 1..9, {1, 2}, {5}) \cup CasesFor({"BTC"}, {1, 3, 8}, {1}, {2}) \cup CasesFor({"LTC"}, {4, 5}, {2}, {3}) \cup CasesFor({"BCH", "BTG"}, {1, 2, 6, 7}, {1}, {4})
 \* replay: each shape with a rotating hash-type pair; both output counts
 RotCases(coins, ss, ns) == {x \in {CaseOf(c, s, n, ((s + n) % 6) + 1) : c \in coins, s \in ss, n \in ns} :
                                x.coin = "BCH" => WitnessFree(x.shape)}
-CasesReplayQ == RotCases({"BTC"}, 1..7, {1, 2}) \cup RotCases({"BCH"}, {1, 2, 6}, {1}) \cup CasesFor({"BTC"}, {9}, {1}, {2})
+CasesOpen == CasesFor({"BTC"}, {8}, {1}, {2})      \* inputs of different puzzles sharing a key, beyond the only output
+CasesReplayQ == RotCases({"BTC"}, 1..7, {1, 2}) \cup RotCases({"BCH"}, {1, 2, 6}, {1}) \cup CasesFor({"BTC"}, {9}, {1}, {2}) \cup CasesOpen
 CasesReplayLightQ == RotCases({"BTC"}, {1, 5}, {2}) \cup RotCases({"BCH"}, {7}, {1})
 CasesReplayDeepQ == RotCases({"BTC"}, {2}, {1})
-CasesReplayT == RotCases({"BTC"}, 1..9, {1, 2, 3}) \cup RotCases({"LTC", "BTG", "BCH", "DOGE", "XTN"}, {1, 2, 3, 6}, {1, 2})
+CasesReplayT == RotCases({"BTC"}, 1..9, {1, 2}) \cup RotCases({"BTC"}, {1, 2, 3}, {3}) \cup RotCases({"LTC", "BTG", "BCH", "DOGE", "XTN"}, {1, 2, 3, 6}, {1})
 CasesReplayDeepT == CasesFor({"BTC"}, {2, 4}, {1}, {4}) \cup CasesFor({"BCH"}, {2}, {1}, {3})
 =============================================================================
